@@ -1,4 +1,5 @@
 import PermutaModel.Lemmas.C19Find
+import PermutaModel.Lemmas.C19Sym
 import PermutaModel.Props.C13
 
 /-!
@@ -228,6 +229,158 @@ theorem findStrategies_of_mem_iff (B B' : List NSeq) (long hfs : Bool)
 theorem findStrategies_perm (B B' : List NSeq) (long hfs : Bool) (hB : ∀ q ∈ B, Good q)
     (h : B.Perm B') : findStrategies B long hfs = findStrategies B' long hfs :=
   findStrategies_of_mem_iff B B' long hfs hB fun _ => h.mem_iff
+
+/-! ## A2 — invariance under the eight symmetries (the dihedral group `D8` of C04) -/
+
+/-- **the eight sets tried are the orbit of the basis**: `b` is one of the sets of `all_symmetry_sets`
+    exactly when `b = g · B` for an element `g` of the dihedral group -/
+theorem mem_symSets_iff (B : List NSeq) (hB : ∀ p ∈ B, IsPerm p) (b : List NSeq) :
+    b ∈ symSets B ↔ ∃ g : D8, b = B.map g.act := mem_symSets hB b
+
+/-- **orbit closure**: a symmetric image of the basis has the same eight sets (as a collection) -/
+theorem symSets_act (B : List NSeq) (hB : ∀ p ∈ B, IsPerm p) (g : D8) (b : List NSeq) :
+    b ∈ symSets (B.map g.act) ↔ b ∈ symSets B := mem_symSets_act hB g b
+
+/-- **A1 in orbit form**: a core strategy is reported exactly when its hypothesis holds for `g · B` for
+    some `g` of the dihedral group -/
+theorem coreApplies_iff_orbit (s : Strat) (B : List NSeq) (hne : B ≠ []) (hB : ∀ q ∈ B, Good q) :
+    coreApplies s B = .ok true ↔ ∃ g : D8, Holds s (B.map g.act) := by
+  rw [coreApplies_iff s B hne hB]
+  constructor
+  · rintro ⟨b, hb, h⟩
+    obtain ⟨g, rfl⟩ := (mem_symSets (fun p hp => (hB p hp).1) b).mp hb
+    exact ⟨g, h⟩
+  · rintro ⟨g, h⟩
+    exact ⟨_, (mem_symSets (fun p hp => (hB p hp).1) _).mpr ⟨g, rfl⟩, h⟩
+
+/-- **T1 / A2 (symmetries), core strategies**: the answer of every core strategy (as an `Except` value) is
+    the same for the basis and for each of its eight symmetric images -/
+theorem coreApplies_sym (s : Strat) (B : List NSeq) (hB : ∀ q ∈ B, Good q) (g : D8) :
+    coreApplies s (B.map g.act) = coreApplies s B := by
+  by_cases hne : B = []
+  · rw [hne]; rfl
+  have hB' := good_map_act hB g
+  have hne' : B.map g.act ≠ [] := by simpa using hne
+  obtain ⟨v, hv⟩ := coreApplies_total s B hne hB
+  obtain ⟨v', hv'⟩ := coreApplies_total s (B.map g.act) hne' hB'
+  have i1 := coreApplies_iff s B hne hB
+  have i2 := coreApplies_iff s (B.map g.act) hne' hB'
+  have i3 : (∃ b ∈ symSets (B.map g.act), Holds s b) ↔ ∃ b ∈ symSets B, Holds s b :=
+    exists_congr fun b => and_congr_left fun _ => mem_symSets_act (fun p hp => (hB p hp).1) g b
+  rw [hv, hv']
+  rw [hv] at i1; rw [hv'] at i2
+  simp only [Except.ok.injEq] at i1 i2
+  congr 1
+  rw [Bool.eq_iff_iff, i2, i1, i3]
+
+/-- non-vacuity: the hypothesis of RdCd holds for `{2413, 3142, 1423}` but not for its reverse
+    `{3142, 2413, 3241}`; the strategy is reported for the reverse all the same -/
+example : Holds .rdCd [[1, 3, 0, 2], [2, 0, 3, 1], [0, 3, 1, 2]] ∧
+    [[1, 3, 0, 2], [2, 0, 3, 1], [0, 3, 1, 2]].map (D8.act ⟨true, false, false⟩) =
+      [[2, 0, 3, 1], [1, 3, 0, 2], [2, 1, 3, 0]] ∧
+    ¬ Holds .rdCd [[2, 0, 3, 1], [1, 3, 0, 2], [2, 1, 3, 0]] ∧
+    coreApplies .rdCd [[2, 0, 3, 1], [1, 3, 0, 2], [2, 1, 3, 0]] = .ok true := by
+  have hG : ∀ q ∈ [[1, 3, 0, 2], [2, 0, 3, 1], [0, 3, 1, 2]], Good q := by
+    intro q hq
+    simp only [List.mem_cons, List.not_mem_nil, or_false] at hq
+    rcases hq with rfl | rfl | rfl <;> exact ⟨by decide, by decide⟩
+  have hH : Holds .rdCd [[1, 3, 0, 2], [2, 0, 3, 1], [0, 3, 1, 2]] := by
+    refine ⟨fun p hp => ⟨p, ?_, contains_refl p⟩, fun q hq hn => ?_⟩
+    · have : Strat.needed .rdCd = [[1, 3, 0, 2], [2, 0, 3, 1]] := by decide
+      rw [this] at hp
+      simp only [List.mem_cons, List.not_mem_nil, or_false] at hp ⊢
+      rcases hp with rfl | rfl <;> simp
+    · have : Strat.needed .rdCd = [[1, 3, 0, 2], [2, 0, 3, 1]] := by decide
+      rw [this] at hn
+      simp only [List.mem_cons, List.not_mem_nil, or_false] at hq hn
+      rcases hq with rfl | rfl | rfl
+      · exact absurd (Or.inl rfl) hn
+      · exact absurd (Or.inr rfl) hn
+      · rfl
+  have hmap : [[1, 3, 0, 2], [2, 0, 3, 1], [0, 3, 1, 2]].map (D8.act ⟨true, false, false⟩) =
+      [[2, 0, 3, 1], [1, 3, 0, 2], [2, 1, 3, 0]] := by decide
+  refine ⟨hH, hmap, fun h => ?_, ?_⟩
+  · have := h.2 [2, 1, 3, 0] (by simp) (by decide)
+    exact absurd this (by decide)
+  · rw [← hmap, coreApplies_sym .rdCd _ hG, coreApplies_iff .rdCd _ (by simp) hG]
+    exact ⟨_, List.mem_cons_self .., hH⟩
+
+/-- **T2 / A2 (symmetries), insertion encoding**: the insertion-encoding strategy's answer is the same for
+    each image under the dihedral group -/
+theorem insEnc_applies_sym (B : List NSeq) (hB : ∀ p ∈ B, IsPerm p) (g : D8) :
+    insEncApplies (B.map g.act) = insEncApplies B := by
+  obtain ⟨k, hk⟩ := act_eq_sym g
+  rw [show B.map g.act = B.map (Model.C13.sym k) from List.map_congr_left fun p _ => hk p]
+  exact insEncApplies_sym k B hB
+
+/-- **A2 (symmetries), one strategy by name**: for every strategy name (unknown names included: `KeyError`
+    on both sides) the answer for `g · B` is the answer for `B`; the finitely-many-simples strategy is the
+    opaque input it is in the model (`hfs` on both sides) -/
+theorem appliesByName_sym (n : String) (B : List NSeq) (hfs : Bool) (hB : ∀ q ∈ B, Good q) (g : D8) :
+    appliesByName n (B.map g.act) hfs = appliesByName n B hfs := by
+  unfold appliesByName
+  by_cases h1 : (n == "InsertionEncodingStrategy") = true
+  · rw [if_pos h1, if_pos h1, insEnc_applies_sym B (fun p hp => (hB p hp).1) g]
+  · rw [if_neg h1, if_neg h1]
+    by_cases h2 : (n == "FinitelyManySimplesStrategy") = true
+    · rw [if_pos h2, if_pos h2]
+    · rw [if_neg h2, if_neg h2]
+      cases Strat.all.find? (fun s => s.name == n) with
+      | none => rfl
+      | some s => exact coreApplies_sym s B hB g
+
+/-- **T3 / A2 (symmetries), the whole search**: the reported list (or exception) is the same for the basis
+    and each of its eight symmetric images, for the quick and the slow search, given the same
+    `has_finite_simples` verdict for both -/
+theorem findStrategies_sym (B : List NSeq) (long hfs : Bool) (hB : ∀ q ∈ B, Good q) (g : D8) :
+    findStrategies (B.map g.act) long hfs = findStrategies B long hfs := by
+  unfold findStrategies
+  exact collect_congr _ _ hfs (fun n => appliesByName_sym n B hfs hB g) _
+
+/-- non-vacuity: the hypotheses are met by a paper basis and the image is a different list -/
+example (long hfs : Bool) :
+    findStrategies [[2, 0, 3, 1], [1, 3, 0, 2], [2, 1, 3, 0]] long hfs =
+      findStrategies [[1, 3, 0, 2], [2, 0, 3, 1], [0, 3, 1, 2]] long hfs := by
+  have hG : ∀ q ∈ [[1, 3, 0, 2], [2, 0, 3, 1], [0, 3, 1, 2]], Good q := by
+    intro q hq
+    simp only [List.mem_cons, List.not_mem_nil, or_false] at hq
+    rcases hq with rfl | rfl | rfl <;> exact ⟨by decide, by decide⟩
+  exact findStrategies_sym _ long hfs hG ⟨true, false, false⟩
+
+/-- the quick search never consults `has_finite_simples` -/
+theorem findStrategies_quick_hfs (B : List NSeq) (hfs hfs' : Bool) :
+    findStrategies B false hfs = findStrategies B false hfs' := by
+  have key : ∀ l : List String, (∀ n ∈ l, n ≠ "FinitelyManySimplesStrategy") →
+      collect B hfs l = collect B hfs' l := by
+    intro l
+    induction l with
+    | nil => intro _; rfl
+    | cons n rest ih =>
+      intro h
+      have hn : appliesByName n B hfs = appliesByName n B hfs' := by
+        unfold appliesByName
+        by_cases h1 : (n == "InsertionEncodingStrategy") = true
+        · rw [if_pos h1, if_pos h1]
+        · rw [if_neg h1, if_neg h1,
+            if_neg (by simpa using h n (List.mem_cons_self ..)),
+            if_neg (by simpa using h n (List.mem_cons_self ..))]
+      rw [collect, collect, hn, ih fun m hm => h m (List.mem_cons_of_mem _ hm)]
+  unfold findStrategies
+  simp only [Bool.false_eq_true, if_false]
+  exact key _ (by decide)
+
+/-- **T3 for the quick search, unconditionally**: the quick search reports the same list for the basis and
+    each symmetric image whatever `has_finite_simples` would say about either -/
+theorem findStrategies_quick_sym (B : List NSeq) (hfs hfs' : Bool) (hB : ∀ q ∈ B, Good q) (g : D8) :
+    findStrategies (B.map g.act) false hfs = findStrategies B false hfs' := by
+  rw [findStrategies_sym B false hfs hB g, findStrategies_quick_hfs B hfs hfs']
+
+/-- **T3 with the verdict as a function of the basis**: if the supplied `has_finite_simples` verdict `fs` is
+    itself invariant under `g`, so is the slow search that consults it -/
+theorem findStrategies_sym_of_verdict (fs : List NSeq → Bool) (B : List NSeq) (long : Bool)
+    (hB : ∀ q ∈ B, Good q) (g : D8) (hfs : fs (B.map g.act) = fs B) :
+    findStrategies (B.map g.act) long (fs (B.map g.act)) = findStrategies B long (fs B) := by
+  rw [hfs]; exact findStrategies_sym B long (fs B) hB g
 
 /-- **A4**: the quick search returns the slow search's result minus the slow strategies (an exception
     of one is an exception of the other) -/
